@@ -61,7 +61,8 @@ REGISTRY = {
             'expanded through the extracted dispatch tables, ground flag); the plain-text fast path of Parser::feed composed with it delivers each '
             'non-special character to draw exactly once and sends every other character exactly once; D4 R-CAP - empty parameter = 0, saturating at 9999. '
             'Don\'t-care (statement silent): ESC followed by a C0 control, ESC inside CSI, OSC codes R/P/p, ESC x inside an OSC payload, whether CAN/SUB is '
-            'also handed to draw. NOT decided: the concatenation of parameter digits into a number is the library parse (A-LIB).'),
+            'also handed to draw. NOT decided: the concatenation of parameter digits into a number is the library parse (A-LIB).'
+            ' Added clauses: every digit inside a CSI parameter is appended to the run being collected (leading zeros cannot change the value), with witnesses for runs longer than five digits.'),
         level_text=('Automaton and decision-table extraction by abstract interpretation of the coroutine and dispatch functions over the finite set of '
                     'character classes, compared entry by entry with a reference grammar written from the statement; covers every state x class x mode of '
                     'the copy that ships (which no unit test executes), not sampled strings.'),
@@ -102,7 +103,8 @@ REGISTRY = {
             'other code/mode (decision table over 36 code x mode classes). D3 - the per-character mapping closure of draw, applied abstractly to '
             'representative code points (incl. 0x00, 0x5f, 0x7e, 0xff, 0x100, astral) under each active set with distinguishable tables, returns table[c] '
             'for c <= 255 and c itself above. D4 R-FSM - ESC ( X / ESC ) X reach define_charset(X, kind) and SO/SI reach shift_out/in iff the parser is '
-            'in 8-bit mode; they are consumed without effect in UTF-8 mode. NOT decided: nothing of substance beyond the trusted base.'),
+            'in 8-bit mode; they are consumed without effect in UTF-8 mode. NOT decided: nothing of substance beyond the trusted base.'
+            ' Added clauses: the display width is measured on the translated character; translation is decided on draw() as a whole (any helper); bytes reach draw() as code points of the same value in 8-bit mode.'),
         level_text=('Entry-by-entry comparison of the compiler-evaluated tables with an independently sourced reference, decision-table extraction for '
                     'define_charset, abstract application of the translation closure, and automaton extraction for the designator / shift paths - all 1024 '
                     'entries and every designator class, not three sampled bytes.'),
@@ -122,7 +124,8 @@ REGISTRY = {
             'map `u8 as char` over the chunk and reads no carried state. D3 R-STREAM - on every UTF-8 path the chunk is handed exactly once to a streaming '
             'encoding_rs Decoder that is a field of the ByteParser (constructed only in new / select_other_charset), with last=false, and its output is passed '
             'to Parser::feed exactly once; no whole-buffer decode exists. With that, independence at byte offsets reduces to the decoder\'s documented '
-            'streaming contract (A-LIB). NOT decided: equality of full state snapshots over all streams x partitions as such.'),
+            'streaming contract (A-LIB). NOT decided: equality of full state snapshots over all streams x partitions as such.'
+            " Added clauses: the output buffer handed to the streaming decoder has the decoder's own with-replacement bound for data.len() bytes (otherwise OutputFull drops the rest of the chunk); the 8-bit text is decided semantically (the mapping applied to an arbitrary byte b yields char(b); collect- and push-loop forms)."),
         level_text=('Structural proof obligations (fold shape, homomorphism, streaming-decoder typestate) whose conjunction implies chunk independence '
                     'relative to the library contracts; decided on every path of the two feed functions rather than on sampled split points.'),
         assumes='A-GEN, A-LIB, A-TOOL',
@@ -140,7 +143,8 @@ REGISTRY = {
             'goes exactly once to the recogniser; the decoder is constructed only at construction / mode switch; no whole-buffer decode remains (so an incomplete '
             'tail is held by the decoder and ill-formed input is replaced per the WHATWG rule the library documents). D2 - 8-bit mode maps each byte with '
             '`u8 as char` (identity on code points by language semantics). D3 R-DISPATCH - select_other_charset: "@" switches to 8-bit and discards the carry, '
-            '"G"/"8" switch to UTF-8, every other code does nothing. D4 - the byte parser\'s panic obligations are discharged (shared with C01).'),
+            '"G"/"8" switch to UTF-8, every other code does nothing. D4 - the byte parser\'s panic obligations are discharged (shared with C01).'
+            ' Added clauses: output-buffer capacity (with-replacement bound for the chunk); selecting UTF-8 again must not re-create the decoder on a path where the parser may already be in UTF-8 mode (carried bytes would be dropped).'),
         level_text=('Typestate / protocol rule for the streaming decoder, cast-only check of the 8-bit map and decision-table extraction of the mode switch; '
                     'honest scope: decoder correctness itself is delegated to the library contract.'),
         assumes='A-LIB, A-TOOL',
@@ -186,9 +190,9 @@ REGISTRY = {
         explanation=('R-FRAME {buffer, dirty}; R-NOREAD erase operations read neither margins nor mode (region / origin mode cannot restrict them); absent selector == 0 and zero count == absent '
                      '(path-set equality); R-FOOT every stored cell lies in the documented range for the selector of its path (EL0 [x,..), EL1 [..,x], EL2 row; ED adds rows below / above / all; '
                      'ECH [x, x+n)); R-GRID column keys < columns (EL1 at the pending-wrap column); R-BLANK the stored value is the cursor rendition; unsupported selectors change no cell; R-PANIC. '
-                     'NOT decided: must-footprint (that every cell of the range is written) is implied only by the loop ranges, not separately proven.'),
-        level_text='May-footprint of every symbolic cell store against the documented range per selector, plus frames, key bounds and value provenance.',
-        not_decided='Must-coverage of the full range is not separately proven.', technique='abstract interpretation: symbolic footprint + may-read/may-write analysis',
+                     ''),
+        level_text='May- and must-footprint of the erase operations against the documented range per selector (every stored cell lies in it, and a no-early-exit loop storing a cell per iteration covers it), plus frames, key bounds and value comparison with the cursor rendition.',
+        not_decided='', technique='abstract interpretation: symbolic footprint + may-read/may-write analysis',
         rule='per site R-FOOT/R-GRID/R-BLANK; per partition R-ZERO1; R-FRAME/R-NOREAD per function',
     ),
     'C06': dict(
@@ -275,3 +279,20 @@ REGISTRY = {
         rule='R-FRAME, R-FOOT per store site, R-GRID, R-ABSENT, R-DIRTY, R-COPYALL, R-MUST, R-INV, R-PANIC',
     ),
 }
+
+
+# clauses added after the seeded rounds (DESIGN.md 12.6 / 12.7)
+ADDED = {
+         'C04': ' Added clauses: R-MUST the cursor does not move between the insert-mode shift and the store; R-WIDTH only characters whose measured width is 0 / none are joined to the previous cell; R-MUSTFOOT printable characters are stored, wide ones with their empty placeholder whenever the next cell exists; the stored rendition is compared field-wise with the cursor rendition.',
+         'C06': ' Added clause: R-MUSTFOOT IL/DL rewrite every row from the cursor row to the bottom margin (a no-early-exit loop touching the row of its element covers that range).',
+         'C07': ' Added clauses: R-MUSTFOOT every documented cell is erased (no-early-exit loop storing a cell per iteration covers the documented columns; ED: row loop with an inner all-columns loop plus EL for selectors 0/1); a removal from the grid is allowed only where the cursor rendition equals default_char() in that state.',
+         'C08': ' Added clauses: after a reset inside a parameter list `reverse` is the DECSCNM bit of that path; what format! produces is decided from the decoded format template and the component bounds.',
+         'C10': ' Added clauses: R-AGREE display() measures cell width as draw() does (char width of the first character of the cell text); rows/columns loops are recognised by the value of the iterated range in either loop or map/collect form, in display or its private helpers.',
+         'C12': ' Added clauses: the mode set after SM/RM is decided on exactly known initial sets; DECCOLM remembers the width it leaves and returns to it; the SM/RM data path of the parser (numbers and private flag of this sequence only) is part of the check.',
+         'C13': ' Added clauses: R-MUSTFOOT every cell from the cursor column to the right edge is rewritten; blanks stored by helpers called from ICH/DCH are checked too.',
+         'C16': ' Added clauses: the cursor ends on a cell of the new screen (x < columns); the DECCOLM round trip (remember / return / forget).',
+         'C17': ' Added clauses: a row the cursor leaves inside a loop is marked before the next iteration; the mark after a loop must cover the pending row; rows written in a range loop may be marked by a range (or an insert loop over the range) after it.',
+         'C18': ' Added clauses: default stops may be installed by extend or by an insert loop over (8..columns).step_by(8); HTS/TBC fall back to a decision on exactly known stop sets when the operation is guarded differently.',
+}
+for _k, _t in ADDED.items():
+    REGISTRY[_k]['explanation'] = REGISTRY[_k]['explanation'] + _t
